@@ -157,7 +157,7 @@ class Tracer:
                 rec = dict(kind="function" if isinstance(graph_or_function, ir.Function) else "graph",
                            name=getattr(graph_or_function, "name", None), top=graph_or_function,
                            g0=tracer.graph_lit(graph_or_function), apps=[], visits={}, unmodelled=[],
-                           matched_sigs=[], new_nodes=0, count=None, gfinal=None, levels={})
+                           matched_sigs=[], new_nodes=0, count=None, gfinal=None, levels={}, ext=[])
                 tracer.cur = rec
                 tracer.sweeps.append(rec)
             tracer.depth += 1
@@ -179,8 +179,12 @@ class Tracer:
             if rec is not None:
                 nodes = list(graph_or_function)
                 idx = next((i for i, n in enumerate(nodes) if n is node), None)
+                import onnx_ir as ir
+                # by design a replacement that creates initializers is dropped at the top level of a function (the rule set
+                # goes on with the next rule): not a fire for the iteration model
+                dropped = delta is not None and bool(delta.new_initializers) and isinstance(graph_or_function, ir.Function)
                 rec["visits"].setdefault(id(graph_or_function), []).append(
-                    dict(idx=idx, n=len(nodes), rule=tracer.rule_index.get(id(self_)), fired=delta is not None))
+                    dict(idx=idx, n=len(nodes), rule=tracer.rule_index.get(id(self_)), fired=delta is not None and not dropped))
                 tracer.keep.append(graph_or_function)
                 if delta is not None:
                     tracer.stash[id(graph_or_function)] = (delta, self_)
@@ -189,6 +193,8 @@ class Tracer:
                         tracer.keep.append(v)
                         if id(v) not in tracer.tok:
                             tracer.set_token(v, tracer.fresh("init"))
+                        if tracer.tok[id(v)] not in rec["ext"]:
+                            rec["ext"].append(tracer.tok[id(v)])
             return delta
 
         def replace_wrapper(graph_or_function, insertion_point, old_nodes, new_nodes, old_values, new_values):
